@@ -274,7 +274,7 @@ def blueprint_json_mutations(rep, rng, tier, crash):
                 cur[p[-1]] = {"null": None, "int": -1, "str": "zz", "list": [], "dict": {}}[mut]
             docs.append(json.dumps(d))
     docs += ["", "{", "[]", "null", '{"preamble":{}}', json.dumps(bp)[:-5], json.dumps(bp).replace("compiledCode", "compiledcode"), json.dumps(bp).replace('"hash":"', '"hash":"zz')]
-    res = vlib.run_harness_stream("json_ops", [{"id": i, "kind": "blueprint", "text": t} for i, t in enumerate(docs)], per_case_timeout=20)
+    res = vlib.run_harness_stream("json_ops", [{"id": i, "kind": "blueprint", "text": t} for i, t in enumerate(docs)], per_case_timeout=20, confirm_timeout=100)
     for t, r in zip(docs, res):
         if "panic" in r:
             crash("blueprint JSON", t, r["panic"])
@@ -310,7 +310,7 @@ def aiken_text_mutations(rep, rng, tier, crash):
     muts += ["", "{" * 3000, "pub fn f() { " + "(" * 3000 + "1" + ")" * 3000 + " }", "pub fn f() { " + "[" * 2000 + "]" * 2000 + " }", "pub fn f() { " + "!" * 5000 + "True }",
              "pub fn f() { " + " + ".join(["1"] * 5000) + " }", "pub fn f() { #\"" + "zz" * 100 + "\" }", "pub fn f() { " + "9" * 10000 + " }", "@" * 1000, "\"" * 999, "/" * 4000,
              "pub fn f() { " + "if True { " * 1500 + "1" + " } else { 2 }" * 1500 + " }", "pub type T { " + "A(" * 1000 + "Int" + ")" * 1000 + " }"]
-    res = vlib.run_harness_stream("json_ops", [{"id": i, "kind": "aiken", "text": t} for i, t in enumerate(muts)], per_case_timeout=20)
+    res = vlib.run_harness_stream("json_ops", [{"id": i, "kind": "aiken", "text": t} for i, t in enumerate(muts)], per_case_timeout=20, confirm_timeout=100)
     for t, r in zip(muts, res):
         if "panic" in r:
             crash("aiken " + r.get("stage", "?"), t, r["panic"])
